@@ -364,19 +364,35 @@ func (s *scope) setInstance(descriptor *Descriptor, key instanceKey, instance an
 		s.instancesMu.Unlock()
 		fallthrough
 	case Transient:
-		if d, ok := instance.(Disposable); ok {
-			s.disposablesMu.Lock()
-			if s.disposablesTaken {
-				// The scope was closed while this instance was being built:
-				// nobody else will ever dispose it
-				s.disposablesMu.Unlock()
-				_ = d.Close()
-				return
-			}
-			s.disposables = append(s.disposables, d)
-			s.disposablesMu.Unlock()
-		}
+		s.trackDisposable(instance)
 	}
+}
+
+// trackDisposable makes the scope dispose the instance when it is closed.
+func (s *scope) trackDisposable(instance any) {
+	if d, ok := instance.(Disposable); ok {
+		s.disposablesMu.Lock()
+		if s.disposablesTaken {
+			// The scope was closed while this instance was being built:
+			// nobody else will ever dispose it
+			s.disposablesMu.Unlock()
+			_ = d.Close()
+			return
+		}
+		s.disposables = append(s.disposables, d)
+		s.disposablesMu.Unlock()
+	}
+}
+
+// dropOutput takes care of an output of a multi-output constructor whose
+// registration was removed from the collection: nothing can resolve it, but its
+// owner still disposes it.
+func (s *scope) dropOutput(lifetime Lifetime, instance any) {
+	if lifetime == Singleton {
+		s.rootProvider.trackDisposable(instance)
+		return
+	}
+	s.trackDisposable(instance)
 }
 
 var (
@@ -558,6 +574,7 @@ func (s *scope) createInstance(descriptor *Descriptor) (any, error) {
 			regDescriptor := s.outputDescriptor(descriptor, func(d *Descriptor) bool { return d.resultField == reg.Name })
 			if regDescriptor == nil {
 				// That field's registration was removed from the collection
+				s.dropOutput(descriptor.Lifetime, reg.Value)
 				continue
 			}
 
@@ -597,6 +614,7 @@ func (s *scope) createInstance(descriptor *Descriptor) (any, error) {
 			serviceDescriptor := s.outputDescriptor(descriptor, func(d *Descriptor) bool { return d.MultiReturnIndex == ret.Index })
 			if serviceDescriptor == nil {
 				// That return type's registration was removed from the collection
+				s.dropOutput(descriptor.Lifetime, value)
 				continue
 			}
 
